@@ -21,6 +21,12 @@ import vcheck as V
 
 CONTRACTS = ["alphabet", "audit", "balance", "container", "neofs", "neofsid", "netmap", "nns", "processing", "proxy", "reputation"]
 DIFF_FAMILIES = ["balance", "netmap", "container", "nns", "stores", "mainchain"]
+# driver modes of the families (extra environment), each mode is replayed
+DIFF_MODES = {
+    "container": [dict(), dict(VERIF_FAMMODE="roster")],
+    "mainchain": [dict(VERIF_MC_FAM="vote"), dict(VERIF_MC_FAM="gas")],
+    "netmap": [dict(VERIF_NRING=6, VERIF_NSYS=12)],
+}
 ASSUME = [
     "the pinned compiler is neo-go v0.107.0 from the module cache (the version the Makefile pins)",
     "identical NEF scripts and method tokens behave identically; differing scripts are judged by differential replay on the scenario sets of the other families (held on everything replayed, not a proof)",
@@ -69,32 +75,47 @@ def diff_replay(seed, nrand):
         except V.Inconclusive as e:
             V.log("differential replay: driver %s does not build, skipped (%s)" % (fam, str(e)[:80]))
             continue
-        paths = {}
-        envs = []
-        for mode in ("source", "embedded"):
-            p = os.path.join(V.scratch(), "diff_%s_%s.ndjson" % (fam, mode))
-            paths[mode] = p
-            envs.append(dict(VERIF_OUT=p, VERIF_SEED=seed, VERIF_NRAND=nrand, VERIF_SHARD=0, VERIF_NSHARD=1, VERIF_TIER="quick",
-                             VERIF_ARTIFACTS="embedded" if mode == "embedded" else "", VERIF_SCEN=""))
-        try:
-            V.go_drive(binary, envs, timeout=1500)
-        except V.Inconclusive as e:
-            V.log("differential replay: driver %s failed, skipped (%s)" % (fam, str(e)[:200]))
-            continue
+        for mi, mode_env in enumerate(DIFF_MODES.get(fam, [dict()])):
+            paths = {}
+            envs = []
+            for mode in ("source", "embedded"):
+                p = os.path.join(V.scratch(), "diff_%s%d_%s.ndjson" % (fam, mi, mode))
+                paths[mode] = p
+                e = dict(VERIF_OUT=p, VERIF_SEED=seed, VERIF_NRAND=nrand, VERIF_SHARD=0, VERIF_NSHARD=1, VERIF_TIER="quick",
+                         VERIF_ARTIFACTS="embedded" if mode == "embedded" else "", VERIF_SCEN="")
+                e.update(mode_env)
+                envs.append(e)
+            try:
+                V.go_drive(binary, envs, timeout=1500)
+            except V.Inconclusive as e:
+                V.log("differential replay: driver %s %s failed, skipped (%s)" % (fam, mode_env, str(e)[:200]))
+                continue
 
-        def norm(p):
-            rows = []
-            for l in open(p):
-                r = json.loads(l)
-                r.pop("fault", None)
-                rows.append(json.dumps(r, sort_keys=True))
-            return rows
-        a, b = norm(paths["source"]), norm(paths["embedded"])
-        first = next((i for i, (x, y) in enumerate(zip(a, b)) if x != y), None)
-        same = a == b
-        out.append(dict(act="diffreplay", name=fam, same=same, lines=len(a), res="HALT", t=0,
-                        firstDiff=-1 if first is None else first + 1))
-        V.log("differential replay %s: %d lines, %s" % (fam, len(a), "equal" if same else "DIFFERENT at line %s" % (first,)))
+            def canon(x, in_obs=False):
+                # observations of the state are sets (drivers enumerate Go maps): compare them order-insensitively;
+                # everything else (results, notifications) keeps its order
+                if isinstance(x, dict):
+                    return {k: canon(v, in_obs or k == "obs") for k, v in x.items()}
+                if isinstance(x, list):
+                    ys = [canon(v, in_obs) for v in x]
+                    return sorted(ys, key=lambda v: json.dumps(v, sort_keys=True)) if in_obs else ys
+                return x
+
+            def norm(p):
+                rows = []
+                for l in open(p):
+                    r = json.loads(l)
+                    for k in ("fault", "flt", "err", "msg", "why"):
+                        r.pop(k, None)   # fault texts carry instruction offsets of the script
+                    rows.append(json.dumps(canon(r), sort_keys=True))
+                return rows
+            a, b = norm(paths["source"]), norm(paths["embedded"])
+            first = next((i for i, (x, y) in enumerate(zip(a, b)) if x != y), None)
+            same = a == b
+            name = fam if len(DIFF_MODES.get(fam, [1])) == 1 else "%s#%d" % (fam, mi)
+            out.append(dict(act="diffreplay", name=name, same=same, lines=len(a), res="HALT", t=0,
+                            firstDiff=-1 if first is None else first + 1))
+            V.log("differential replay %s: %d lines, %s" % (name, len(a), "equal" if same else "DIFFERENT at line %s" % (first,)))
     return out
 
 
